@@ -142,6 +142,8 @@ def c07(res, tier, seed):
             cases.append((kind, src))
     for kind, src in oversize(r):
         cases.append(("oversize:" + kind, src))
+        if kind.startswith("strict-escape") or kind.startswith("re-"):
+            cases.append(("oversize:" + kind + " [strict]", src))       # these families are about strict escape checking: always also with it
     r.shuffle(cases)
     includes = ["include inc.yar " + yv.hx(b"rule incrule { condition: true }"),
                 "include self.yar " + yv.hx(b'include "self.yar"'),
@@ -156,7 +158,7 @@ def c07(res, tier, seed):
         for k, (kind, src) in enumerate(part):
             via = ["add", "addfile", "addfd", "addbytes"][k % 4]
             lines += ["note c%d" % k, "compiler 0", "cdefine 0 i ext_i 3", "cdefine 0 s ext_s 616263", "cdefine 0 b ext_b 1", "cdefine 0 f ext_f 0.5"]
-            if k % 3 == 0:
+            if k % 3 == 0 or kind.endswith("[strict]"):
                 lines.append("strict 0 1")
             lines += ["%s 0 %s %s" % (via, "-" if k % 3 else "nsx", yv.hx(src.encode("latin-1", "replace"))), "cdestroy 0"]
             if k % 25 == 24:
